@@ -30,6 +30,8 @@ static void run_case(const std::string& cid, Toks& t) {
     std::string op = t.next();
     if (op == "pspmv") {
         std::string kind = t.next(), fmt = t.next(); int tap = t.next_int(), ppn = t.next_int();
+        // tap: 0 off, 1 node-aware with rank ordering 1 (the default), 10 / 12: node-aware with rank ordering 0 / 2
+        { char ob[8]; snprintf(ob, sizeof ob, "%d", tap >= 10 ? tap - 10 : 1); setenv("RAPtor_MPICH_RANK_REORDER_METHOD", ob, 1); if (tap >= 10) tap = 1; }
         ParLit L; L.parse(t);
         int nx = t.next_int(); std::vector<double> X = t.nums(nx);
         int nb = t.next_int(); std::vector<double> B = t.nums(nb);
